@@ -261,10 +261,22 @@ def diff(a, b, tol=False, path=''):
     raise AssertionError('unknown kind %r' % (k,))
 
 
+def ver_key(v):
+    """Reference reading of a version string: numeric groups without trailing zeros + suffix ('2' == '2.0' == '2.00')."""
+    import re
+    m = re.match(r'^(\d+(?:\.\d+)*)(.*)$', v or '', re.S)
+    if not m:
+        return (None, v)
+    nums = [int(x) for x in m.group(1).split('.')]
+    while nums and nums[-1] == 0:
+        nums.pop()
+    return (tuple(nums), m.group(2) or None)
+
+
 def grid_diff(a, b, tol=False, path=''):
     _, va, ma, ca, ra = a
     _, vb, mb, cb, rb = b
-    if va is not None and va != vb:
+    if va is not None and va != vb and ver_key(va) != ver_key(vb):
         return (path + '.ver', 'content-changed', 'version %r vs %r' % (va, vb))
     if [k for k, _ in ma] != [k for k, _ in mb]:
         return (path + '.meta', 'shape-changed', 'metadata keys %r vs %r' % (
@@ -848,7 +860,7 @@ class Gen(object):
     def grid(self, ver, depth=0, small=False, maxcols=5, maxrows=8):
         """ver: '2.0' | '3.0' | None (defaulted)."""
         r = self.r
-        v3 = ver == '3.0' or (ver is None and r.random() < 0.5)
+        v3 = (ver is not None and ver[:1] not in ('1', '2')) or (ver is None and r.random() < 0.5)
         ncols = r.randint(1, 2 if small else maxcols)
         nrows = r.randint(0, 2 if small else maxrows)
         nmeta = r.choice([0, 0, 1, 2, 3]) if not small else r.choice([0, 1])
